@@ -97,7 +97,9 @@ def run(tier, seed, replay):
         for _ in range(700 if quick else 40000):
             cases.append({"src": jqgen.program(r, r.choice([2, 3, 3, 4])), "inputs": r.sample(uni, 2 if quick else 3)})
         # 2b. lexical scoping (definitions / variables / labels made inside one sub-query are invisible in its siblings) and join points
-        for _ in range(400 if quick else 20000):
+        for src in jqgen.scope_programs():          # complete: ~650 programs
+            cases.append({"src": src, "inputs": r.sample(uni, 1 if quick else 2)})
+        for _ in range(100 if quick else 20000):
             cases.append({"src": jqgen.scope_program(r), "inputs": r.sample(uni, 1 if quick else 2)})
         for _ in range(150 if quick else 10000):
             cases.append({"src": jqgen.join_program(r), "inputs": r.sample(uni, 1 if quick else 2)})
